@@ -34,7 +34,7 @@ def check(run):
     nmax = 5 if quick else 6
     permsN = model(run, nmax)                         # all permutations of 1..nmax, from TLC
     U = vlib.universe(run, ECOS)
-    acc = vlib.accepted(run, exe, U, regex_extra=200 if quick else 1500, rnd=rnd)
+    acc = vlib.accepted(run, exe, U, regex_extra=200 if quick else 1500, rnd=rnd, tokens=2 if quick else 3, tokens_cap=300 if quick else 1500)
     versions, part = check_c20.choose_versions(run, exe, U, acc, rnd, 10, 10)
     jobs = []; cliruns = []
     nsets = 5 if quick else 25
